@@ -408,7 +408,9 @@ class ICPSub(Sub):
                     "prot": draw(st.one_of(st.just(0.0), st.floats(0.0, 1.0), st.floats(0.0, 1.0))), "paxis": pa,
                     "ptr": draw(st.one_of(st.just(0.0), st.floats(0.0, 1.0), st.floats(0.0, 1.0))), "ptdir": pt,
                     "stepper": draw(st.sampled_from(("default", "tight", "short"))),
-                    "extra": draw(st.one_of(st.just(0), st.just(0), st.integers(1, 20)))}
+                    "extra": draw(st.one_of(st.just(0), st.just(0), st.integers(1, 20))),
+                    # the same ICP object is first used for an unrelated registration with a far per-call init (result discarded)
+                    "reuse": draw(st.sampled_from((False, False, True)))}
         return s()
 
     def valid(self, case):
@@ -473,12 +475,18 @@ class ICPSub(Sub):
                 stepper = pp.utils.ReduceToBason(steps=100, patience=3, decreasing=1e-4, tol=1e-13)
             else:
                 stepper = pp.utils.ReduceToBason(steps=3, tol=1e-9)
-            if case["init"] == "ctor":
-                T = pp.module.ICP(init=init, stepper=stepper)(src, tgt)
-            elif case["init"] == "fwd":
-                T = pp.module.ICP(stepper=stepper)(src, tgt, init=init)
+            icp = pp.module.ICP(init=init, stepper=stepper) if case["init"] == "ctor" else pp.module.ICP(stepper=stepper)
+            if case.get("reuse"):
+                # an earlier call on the same object, started from a transform far away (2.5 rad about (1,1,0)): a per-call
+                # init must not leak into later calls
+                far = pp.SE3(tu.tens([3.0, -2.0, 1.0, 0.67103, 0.67103, 0.0, 0.31532], dtype))
+                far = far.lview(1).expand(nb, 7) if nb else far
+                icp(src, tgt, init=pp.SE3(far.tensor().clone()))
+                rec.label("reused_module")
+            if case["init"] == "fwd":
+                T = icp(src, tgt, init=init)
             else:
-                T = pp.module.ICP(stepper=stepper)(src, tgt)
+                T = icp(src, tgt)
         rec.check(torch.equal(src, src0) and torch.equal(tgt, tgt0), "icp:mutates_input", "ICP changed its inputs")
         if not rec.check(isinstance(T, pp.LieTensor) and T.ltype == pp.SE3_type, "icp:type",
                          "ICP returned %s / %s" % (type(T).__name__, getattr(T, "ltype", None))):
